@@ -80,6 +80,10 @@ def do_check(pid, tier, keep=False, only=None):
     unit_reports = []
     assumptions = list(prop.get('assumptions', []))
     trusted = list(prop.get('trusted_base', []))
+    trusted += ['rustc, Kani 0.68, CBMC 6.11, CaDiCaL / cvc5 1.0 (tool chain); Kani does not prove termination (harnesses are loop-free or fully unwound with unwinding assertions)',
+                'the vx driver: mechanical injection/extraction, result classification, vx/smtwrap formula pass-through',
+                'core/alloc as modelled by Kani; chrono 0.4.45 is executed symbolically inside the proofs, not assumed',
+                'A3: the regex tokenizers and the rule matcher hand each function the typed values the phrase denotes (unverified layer)']
     bounded = []
     checker_cmds = []
     solver_total = 0.0
